@@ -95,6 +95,9 @@ class C10(InterpProp):
             op2[1] = 1
             ops.append(op2)
         payload = {'kind': 'interp', 'charts': [e1.json, e2.json], 'ops': ops, 'prop': {'kinds': kinds, 'k': k}}
+        if rnd.random() < 0.2:
+            # the property statechart is bound as a ready-made interpreter, the form of sismic < 1.4
+            payload['prop_instance'] = True
         return Case(payload, {'charts': [sc, prop]}, model_ok=e1.supported and e2.supported)
 
     def shrink_candidates(self, case):
@@ -143,6 +146,11 @@ class C10(InterpProp):
                         res.violations.append('op %d: events sent by one micro step come in the order %s, the code sends them '
                                               'in the order %s' % (i, got, want))
                         return
+            # ... and each exit, action and entry is announced before the next piece of code runs
+            late = oracles.announced_late(ra['eff'])
+            if late:
+                res.violations.append('op %d: meta-events do not come when the things happen: %s' % (i, late))
+                return
             # position at which the property must fire
             pos = None
             c = count
